@@ -205,13 +205,14 @@ def pytorch_stft_frame_computer(
     spect = torch.fft.rfft(sig, dft_size_, 1, "backward")
     del sig
     half_len = spect.size(1)
-    mod = half_len % 2
+    mod = dft_size_ % 2
     for si, filt in zip(offsets, filters):
         val, consumed, conj, filt_len = zero, 0, False, len(filt)
         while consumed < filt_len:
             if conj:
                 seg_len = max(min(si + filt_len - consumed, half_len - 2 + mod) - si, 0)
-                seg = spect[..., -2 + mod - si - seg_len : -2 + mod - si].conj().flip(1)
+                seg_end = half_len - 1 + mod - si
+                seg = spect[..., seg_end - seg_len : seg_end].conj().flip(1)
                 si -= half_len - 2 + mod
             else:
                 seg_len = max(0, min(si + filt_len - consumed, half_len) - si)
